@@ -217,6 +217,35 @@ theorem exec_refused_is_noop (st : NodeSt) (sub : SubOp) (h : execGuard st sub =
     (executeOperation st sub).st = st ∧ (executeOperation st sub).posted = [] ∧ (executeOperation st sub).out = .reject := by
   unfold executeOperation; simp [h]
 
+/-- **the answer path never panics** (a request body on the local API): whatever result is submitted in whatever node
+state, `executeOperation` ends with success or an error. Before fix 2fefb3d a result with the event
+`operation_processed_successfully` for an operation of a round without a key-generation part (a pending invitation; a
+round re-initialised from an empty message list) dereferenced a nil payload: the model said `.panic` there and the real
+node did panic (nodediff `invitation-as-processed`). -/
+theorem exec_never_panics (st : NodeSt) (sub : SubOp) : (executeOperation st sub).out ≠ .panic := by
+  unfold executeOperation
+  split
+  · simp
+  · split
+    · unfold execPost; split <;> simp
+    · unfold execReinit
+      repeat' split
+      all_goals first
+        | (simp; done)
+        | (simp only []
+           generalize deleteOperation _ _ = d
+           cases d <;> simp)
+
+/-- and a result refused for that reason changes nothing -/
+theorem exec_processed_without_keygen_is_noop (st : NodeSt) (sub : SubOp) (stored : NOp) (ds : _) (p : _)
+    (hr : lookupS st.rounds sub.round = some (ds, p)) (hp : p.dkg = none) :
+    (execReinit st sub stored).st = st ∧ (execReinit st sub stored).out ≠ .ok := by
+  unfold execReinit
+  simp only [hr]
+  split
+  · exact ⟨rfl, by simp⟩
+  · simp [hp]
+
 theorem approve_refused_is_noop (st : NodeSt) (idOf : Option NOp) (h : (approveParticipation st idOf).out ≠ .ok) :
     (approveParticipation st idOf).st = st := by
   unfold approveParticipation at h ⊢
